@@ -116,8 +116,17 @@ def classobj(name: str):
     return Ref.obj(z3.IntVal(-CLASSES[name]))
 
 
+INJECTIVE_TEMPLATES: dict[str, int] = {}
+
+
 def class_axioms() -> list:
     ax = [z3.Not(truthy_any(NONE))]
+    for tmpl, arity in INJECTIVE_TEMPLATES.items():
+        name = 'fstr<' + tmpl + '>'
+        f = z3.Function(name, *([Ref] * arity + [Ref]))
+        xs = [z3.Const('x%d!inj' % i, Ref) for i in range(arity)]
+        invs = [z3.Function(name + '^-1.%d' % i, Ref, Ref) for i in range(arity)]
+        ax.append(z3.ForAll(xs, z3.And(Ref.is_str(f(*xs)), *[invs[i](f(*xs)) == xs[i] for i in range(arity)]), patterns=[f(*xs)]))
     for name, cid in CLASSES.items():
         ax.append(otag(z3.IntVal(-cid)) == CLASSES['type'])
     return ax
@@ -239,20 +248,66 @@ def _cvc5_check(smt2: str, timeout_s: int) -> str:
             pass
 
 
-def _check_one(i: int):
-    ob = _OBLS[i]
-    t0 = time.time()
+def _ground_injectivity(exprs) -> list:
+    """Ground instances of the injectivity of declared f-string templates for every application occurring in exprs."""
+    out = []
+    names = {'fstr<' + t + '>': a for t, a in INJECTIVE_TEMPLATES.items()}
+    seen = set()
+    stack = list(exprs)
+    while stack:
+        x = stack.pop()
+        k = x.get_id()
+        if k in seen:
+            continue
+        seen.add(k)
+        if z3.is_quantifier(x):
+            continue   # applications on bound variables are covered by the quantified axiom only
+        if z3.is_app(x):
+            nm = x.decl().name()
+            if nm in names and x.num_args() == names[nm]:
+                for i in range(x.num_args()):
+                    inv = z3.Function(nm + '^-1.%d' % i, Ref, Ref)
+                    out.append(inv(x) == x.arg(i))
+                out.append(Ref.is_str(x))
+            stack.extend(x.children())
+    return out
+
+
+def _solve(ob, axioms, extra, timeout_ms):
     s = z3.Solver()
-    s.set('timeout', _TIMEOUT_MS)
-    for a in _AXIOMS:
+    s.set('timeout', timeout_ms)
+    for a in axioms:
+        s.add(a)
+    for a in extra:
         s.add(a)
     for p in ob.pc:
         s.add(p)
     s.add(z3.Not(ob.goal))
-    r = s.check()
+    return s, s.check()
+
+
+def _check_one(i: int):
+    ob = _OBLS[i]
+    t0 = time.time()
+    ground_ax = [a for a in _AXIOMS if not z3.is_quantifier(a)]
+    quant_ax = [a for a in _AXIOMS if z3.is_quantifier(a)]
     solver = 'z3'
     model = None
     reason = None
+    # phase 1: quantifier-free axioms + ground injectivity instances (fewer axioms: unsat is sound, sat is a candidate)
+    s, r = _solve(ob, ground_ax, _ground_injectivity(list(ob.pc) + [ob.goal]) if quant_ax else [], _TIMEOUT_MS)
+    cand_model = None
+    if r == z3.sat and quant_ax:
+        try:
+            cand_model = _model_to_text(s.model())
+        except Exception:
+            cand_model = None
+        s, r2 = _solve(ob, _AXIOMS, [], _TIMEOUT_MS)   # phase 2: with the quantified axioms
+        if r2 == z3.unknown:
+            r = z3.sat
+            solver = 'z3 (counter-model w.r.t. the ground instances of the quantified axioms)'
+        else:
+            r = r2
     if r == z3.unsat:
         verdict = 'unsat'
     elif r == z3.sat:
@@ -260,7 +315,7 @@ def _check_one(i: int):
         try:
             model = _model_to_text(s.model())
         except Exception as e:  # pragma: no cover
-            model = 'model unavailable: %r' % (e,)
+            model = cand_model or 'model unavailable: %r' % (e,)
     else:
         verdict = 'unknown'
         reason = s.reason_unknown()
